@@ -163,6 +163,53 @@ def require_ok(r: TLCResult, what: str):
         raise Machinery(f'TLC failed on {what}: {r.error or "no completion banner"}\n{tail}')
 
 
+def spec_hash() -> str:
+    import glob
+    h = hashlib.sha256()
+    for f in sorted(glob.glob(os.path.join(SPEC, '*.tla')) + glob.glob(os.path.join(SPEC, '*.cfg')) +
+                    glob.glob(os.path.join(VERIF, 'java', 'tlc2', 'module', '*.java'))):
+        h.update(open(f, 'rb').read())
+    return h.hexdigest()[:16]
+
+
+def mc_cached(module: str, cfg: str, *, workers='auto', timeout=3600, coverage=False) -> dict:
+    """Run a design-level TLC configuration once per specification version (the result does not depend on /repo);
+    concurrent checks wait for each other on a file lock instead of repeating the exploration."""
+    import fcntl
+    cdir = os.path.join(VERIF, '.cache')
+    os.makedirs(cdir, exist_ok=True)
+    key = f'mc-{module}-{cfg}-{spec_hash()}'
+    cp = os.path.join(cdir, key + '.json')
+    with open(os.path.join(cdir, key + '.lock'), 'w') as lf:
+        fcntl.flock(lf, fcntl.LOCK_EX)
+        if os.path.exists(cp):
+            return json.load(open(cp))
+        r = run_tlc(module, cfg, workers=workers, timeout=timeout, coverage=coverage)
+        if not r.ok and not r.violated:
+            tail = '\n'.join(r.stdout.splitlines()[-30:])
+            raise Machinery(f'TLC failed on {module} / {cfg}: {r.error}\n{tail}')
+        d = {'module': module, 'cfg': cfg, 'violated': r.violated, 'distinct': r.distinct, 'generated': r.generated, 'depth': r.depth,
+             'wall_s': round(r.wall, 2), 'cex': r.cex[:80], 'coverage': r.coverage}
+        tmp = cp + f'.{os.getpid()}'
+        json.dump(d, open(tmp, 'w'))
+        os.replace(tmp, cp)
+        return d
+
+
+def add_mc(v, d: dict, label: str, expect_violation: str | None = None):
+    """fold a cached design-level TLC result into a Verdict"""
+    v.states += d['distinct']
+    v.transitions += d['generated']
+    v.extra.setdefault('tlc_runs', []).append({'label': label, 'config': d['cfg'], 'distinct_states': d['distinct'],
+                                                'states_generated': d['generated'], 'depth': d['depth'], 'wall_s': d['wall_s'],
+                                                **({'expected_counterexample_found': d['violated'] == expect_violation} if expect_violation else {})})
+    if expect_violation:
+        if d['violated'] != expect_violation:
+            v.extra.setdefault('notes', []).append(f'{d["cfg"]}: TLC no longer finds the design-level counterexample {expect_violation}')
+    elif d['violated']:
+        v.violation({'clauses': ['SpecInvariant_' + d['violated']], 'config': d['cfg'], 'cex': d['cex'][:60]})
+
+
 # ---------------------------------------------------------------- numbers
 def frac(s) -> Fraction:
     """Exact value of a spec rational string or a Python number."""
@@ -270,12 +317,13 @@ def finish(v: Verdict, matchers: dict | None = None) -> int:
             new.append(case)
         else:
             hits.setdefault(hit['id'], (hit, []))[1].append(case)
-    os.makedirs(os.path.join(VERIF, 'evidence', 'replays'), exist_ok=True)
+    evdir = os.environ.get('VERIF_EVIDENCE_DIR', os.path.join(VERIF, 'evidence'))      # (mutation runs write elsewhere)
+    os.makedirs(os.path.join(evdir, 'replays'), exist_ok=True)
     for fid, (k, cases) in hits.items():
         print(f"KNOWN-FINDING: property={v.pid} {fid} {k['what']} ({len(cases)} case(s) this run)")
     rc = 0
     if new:
-        rp = os.path.join(VERIF, 'evidence', 'replays', f'{v.pid}-{v.tier}-{v.seed}.json')
+        rp = os.path.join(evdir, 'replays', f'{v.pid}-{v.tier}-{v.seed}.json')
         with open(rp, 'w') as f:
             json.dump({'property': v.pid, 'tier': v.tier, 'seed': v.seed, 'cases': new[:200]}, f, indent=1, default=str)
         for case in new[:5]:
@@ -295,6 +343,6 @@ def finish(v: Verdict, matchers: dict | None = None) -> int:
     ev = {'property_id': v.pid, 'tier': v.tier, 'seed': v.seed, 'level': 'model_checking',
           'coverage': cov, 'assumptions': v.assumptions, 'wall_s': round(time.time() - v.t0, 2),
           'violations': len(new)}
-    with open(os.path.join(VERIF, 'evidence', f'{v.pid}.json'), 'w') as f:
+    with open(os.path.join(evdir, f'{v.pid}.json'), 'w') as f:
         json.dump(ev, f, indent=1, default=str)
     return rc
